@@ -80,6 +80,7 @@ pub struct UnitReport {
     pub sample_paths: Vec<String>,
     pub sample_obligations: Vec<String>,
     pub native_replays: u64,
+    pub normal_form_decisions: u64,
     pub wall: f64,
     pub max_path_len: usize,
 }
@@ -221,6 +222,7 @@ fn worker(units: &[Unit], sched: &(Mutex<Sched>, Condvar), cfg: &Config) {
             cur = Some(ui);
         }
         let deadline = { let g = sched.0.lock().unwrap(); g.t0[ui].map(|t| t + std::time::Duration::from_secs_f64(unit.budget_s)) };
+        let nf0 = sym::with(|c| c.n_lin_decided.get() + c.n_poly_decided.get());
         let (q0, s0) = sym::with(|c| { c.deadline = deadline; c.begin_path(prefix.clone()); ((c.solver.queries, c.solver.n_sat, c.solver.n_unsat, c.solver.n_unknown, c.solver.n_nl), c.solver.secs) });
         let end = run_body(&unit.sym);
         // a crate panic on a feasible path
@@ -267,6 +269,7 @@ fn worker(units: &[Unit], sched: &(Mutex<Sched>, Condvar), cfg: &Config) {
             r.obligations += stats.obligations; r.discharged += stats.discharged; r.discharged_ident += stats.discharged_ident; r.real_equal_only += stats.real_equal_only;
             r.unknown_branches += stats.unknown_branches;
             r.native_replays += replays;
+            r.normal_form_decisions += sym::with(|c| c.n_lin_decided.get() + c.n_poly_decided.get()) - nf0;
             for i in stats.inconclusive { if r.inconclusive.len() < 16 { r.inconclusive.push(i) } }
             for e in stats.events { if r.events.len() < 6 && !r.events.contains(&e) { r.events.push(e) } }
             for u in unconfirmed { if r.unconfirmed.len() < 8 { r.unconfirmed.push(u) } }
